@@ -75,7 +75,10 @@ def main():
             for _ in range(2 if quick else 6): orders.append([rnd.randrange(N) for _ in range(N + 1)])
             for o in orders:
                 evals += 1
-                r = check(n, N, rnd, o)
+                try:
+                    r = check(n, N, rnd, o)
+                except Exception as e:  # the code under test raised on an input it must handle
+                    r = "raised %r" % (e,)
                 if r and len(viol) < 5: viol.append({"n": n, "N": N, "order": o, "what": r, "site": "distance_calculation"})
     # metric axioms (bounded)
     for sig in (True, False):
